@@ -78,10 +78,10 @@ def split_cases(ctx, n_seq, n_adds):
         adds = base["sessions"][0]
         files = [base]
         for c1 in range(0, m + 1):
-            files.append({"det": base["det"], "opts": base["opts"], "sessions": [adds[:c1], adds[c1:]]})
+            files.append(dict(base, sessions=[adds[:c1], adds[c1:]]))
             for c2 in range(c1, m + 1):
                 if rng.random() < (1.0 if ctx.thorough else 0.35):
-                    files.append({"det": base["det"], "opts": base["opts"], "sessions": [adds[:c1], adds[c1:c2], adds[c2:]]})
+                    files.append(dict(base, sessions=[adds[:c1], adds[c1:c2], adds[c2:]]))
         cases.append({"files": files, "queries": [], "split_group": True})
     return cases
 
@@ -154,8 +154,6 @@ def run(ctx):
     ctx.assumptions += ["theorems quantify over files holding at least one event whose configuration records particles for every event (the reader needs the particles group)",
                         "FileGenerator.count is modelled with exact integer arithmetic; the code's floating-point (k+1)/n*T may be one lower mid-file, so the correspondence accepts model or model-1 for intermediate counts; the count after each file is exact and proved",
                         "Particle objects rebuilt by FileGenerator are compared field by field with the particle that was written (python side); the model carries only the tag"]
-    ctx.partial += ["filegen_replays (full FileGenerator replay over several files: C12_proofs.filegen_replays_statement is stated, not proved; "
-                    "proved part: filegen_chunk_partial + getitem_slice_eq_spec; the whole statement is checked by correspondence on real files)"]
     ok = ctx.coq_build(PROP)
     changed, cur = ioc.pins_changed(common.REPO, common.ROOT)
     ctx.extra["ast_pins_changed"] = changed
@@ -167,14 +165,14 @@ def run(ctx):
     corp = corpus_cases()
     if corp:
         problems += ioc.run_batch(ctx, corp, PROP, stats, label="k")
-    cases = access_cases(ctx, ctx.n(12, 26) if big else 9, 9 if ctx.thorough else 7, None if ctx.thorough else 45)
-    cases += gen_cases_multi(ctx, ctx.n(10, 30) if big else 7, 8 if ctx.thorough else 6)
-    cases += split_cases(ctx, ctx.n(4, 7) if big else 3, 6 if ctx.thorough else 5)
+    cases = access_cases(ctx, ctx.n(12, 18) if big else 9, 9 if ctx.thorough else 7, None if ctx.thorough else 45)
+    cases += gen_cases_multi(ctx, ctx.n(10, 20) if big else 7, 8 if ctx.thorough else 6)
+    cases += split_cases(ctx, ctx.n(4, 5) if big else 3, 6 if ctx.thorough else 5)
     for c in cases:
         c.pop("_dummy", None)
     problems += ioc.run_batch(ctx, cases, PROP, stats, query_gen=qgen, label="g")
     if ctx.thorough or escalate or problems:
-        extra = access_cases(ctx, ctx.n(4, 40), 6, 40) + gen_cases_multi(ctx, ctx.n(4, 25), 5) + split_cases(ctx, ctx.n(2, 6), 4)
+        extra = access_cases(ctx, ctx.n(4, 24), 6, 40) + gen_cases_multi(ctx, ctx.n(4, 15), 5) + split_cases(ctx, ctx.n(2, 4), 4)
         problems += ioc.run_batch(ctx, extra, PROP, stats, query_gen=qgen, with_model=False, label="s")
         ctx.extra["search"] = {"ran": True, "evaluations": len(extra), "oracle": "sequential pass of the same file (every access path must reproduce it), single-session file (append splits), particles of the sequential pass (FileGenerator)"}
     else:
